@@ -44,12 +44,27 @@ def _cfg(consts, uns, spec="Spec", seed_levels=0):
     return "\n".join(lines) + "\n"
 
 
-def _spec_hash():
+def _closure(module, seen=None):
+    """Transitive EXTENDS/INSTANCE closure of a spec module (files present in spec/ only)."""
+    import re
+    seen = seen if seen is not None else set()
+    path = os.path.join(SPEC, module + ".tla")
+    if module in seen or not os.path.exists(path):
+        return seen
+    seen.add(module)
+    text = open(path).read()
+    for m in re.finditer(r"^\s*(?:EXTENDS|INSTANCE)\s+([^\n]+)", text, re.M):
+        for name in re.split(r"[,\s]+", m.group(1).strip()):
+            if name and name != "WITH":
+                _closure(name, seen)
+    return seen
+
+
+def _spec_hash(module="MC_Doc"):
     h = hashlib.sha1()
-    for fn in sorted(os.listdir(SPEC)):
-        if fn.endswith(".tla"):
-            h.update(fn.encode())
-            h.update(open(os.path.join(SPEC, fn), "rb").read())
+    for name in sorted(_closure(module)):
+        h.update(name.encode())
+        h.update(open(os.path.join(SPEC, name + ".tla"), "rb").read())
     return h
 
 
@@ -131,7 +146,7 @@ def values():
         mod = ("---- MODULE MC_Values ----\nEXTENDS Universe, Json, TLC\nVARIABLE x\n"
                "Init == x = 0\nNext == UNCHANGED x\nSpec == Init /\\ [][Next]_x\n"
                "Inv == PrintT(ToJson(Values))\n====\n")
-        path = os.path.join(CACHE, "values-%s.json" % _spec_hash().hexdigest()[:16])
+        path = os.path.join(CACHE, "values-%s.json" % _spec_hash("Universe").hexdigest()[:16])
         if os.path.exists(path):
             tagged = json.load(open(path))
         else:
@@ -255,7 +270,7 @@ def tlajson_to_tla(x):
         rec = "[" + ", ".join(f"{k} |-> {tlajson_to_tla(v)}" for k, v in plain) + "]" if plain else None
         parts = ([rec] if rec else []) + ["(%s :> %s)" % (tla_str(k), tlajson_to_tla(v)) for k, v in odd]
         if not parts:
-            raise ValueError("empty record")
+            return "[x \\in {} |-> TRUE]"
         return "(" + " @@ ".join(parts) + ")" if len(parts) > 1 else parts[0]
     raise ValueError(type(x))
 
@@ -272,22 +287,30 @@ def obs_to_tla(o):
     return '[kind |-> %s, out |-> [k |-> "np"]]' % tla_str(o["kind"])
 
 
-def adjudicate(events, chunk=1500):
-    """events: list of (id, tla_record_text).  Returns set of rejected ids."""
-    rejected = set()
+def _adjudicate_chunk(part):
+    data = ("---- MODULE TraceData ----\nEXTENDS Integers, Sequences, TLC\nEvents == <<\n"
+            + ",\n".join(t for _, t in part) + "\n>>\n====\n")
+    cfg = ("SPECIFICATION Spec\nINVARIANT Inv\nPOSTCONDITION Consumed\nCHECK_DEADLOCK FALSE\n")
+    res = run_tlc("Trace_Doc", cfg, extra_modules={"TraceData": data}, workers=1, coverage=False)
+    if not res.ok:
+        raise MachineryError("trace validation run failed (trace not consumed or TLC error):\n"
+                             + res.raw_tail[-2500:])
+    return {l["reject"]: l.get("clause", "") for l in res.lines}, res.distinct
+
+
+def adjudicate(events, chunk=None, parallel=8):
+    """events: list of (id, tla_record_text).  Returns ({rejected id: failing clause}, stats).
+    Chunks are independent traces; they are validated by several TLC processes at once."""
+    from concurrent.futures import ThreadPoolExecutor
+    if chunk is None:
+        chunk = max(50, min(1500, (len(events) + parallel - 1) // parallel))
+    rejected = {}
     total_states = 0
     t0 = time.time()
-    for c in range(0, len(events), chunk):
-        part = events[c:c + chunk]
-        data = ("---- MODULE TraceData ----\nEXTENDS Integers, Sequences, TLC\nEvents == <<\n"
-                + ",\n".join(t for _, t in part) + "\n>>\n====\n")
-        cfg = ("SPECIFICATION Spec\nINVARIANT Inv\nPOSTCONDITION Consumed\nCHECK_DEADLOCK FALSE\n")
-        res = run_tlc("Trace_Doc", cfg, extra_modules={"TraceData": data}, workers=1,
-                      coverage=False)
-        if not res.ok:
-            raise MachineryError("trace validation run failed (trace not consumed or TLC error):\n"
-                                 + res.raw_tail[-2500:])
-        for l in res.lines:
-            rejected.add(l["reject"])
-        total_states += res.distinct
-    return rejected, dict(events=len(events), tlc_states=total_states, wall=round(time.time() - t0, 2))
+    parts = [events[c:c + chunk] for c in range(0, len(events), chunk)]
+    with ThreadPoolExecutor(max_workers=parallel) as ex:
+        for rej, n in ex.map(_adjudicate_chunk, parts):
+            rejected.update(rej)
+            total_states += n
+    return rejected, dict(events=len(events), tlc_states=total_states, chunks=len(parts),
+                          wall=round(time.time() - t0, 2))
